@@ -62,7 +62,9 @@ impl Composer {
     /// the above example, the deconstruction of 4 for `N < 3` would result in
     /// an unsatisfied circuit.
     ///
-    /// Consumes `2 · N + 1` gates
+    /// Consumes `2 · N + 1` gates. The widths 255 and 256, which are wide
+    /// enough to also hold `scalar + r`, additionally carry the canonical
+    /// guard that pins the bits to those of the canonical `scalar`.
     pub fn component_decomposition<const N: usize>(
         &mut self,
         scalar: Witness,
@@ -71,6 +73,9 @@ impl Composer {
         assert!(0 < N && N <= 256);
 
         let mut decomposition = [Self::ZERO; N];
+
+        // Running sum over the low 254 bits, kept for the canonical guard.
+        let mut low_254 = None;
 
         let acc = Self::ZERO;
         let acc = self[scalar]
@@ -89,10 +94,30 @@ impl Composer {
                     .a(*w_bit)
                     .b(acc);
 
-                self.gate_add(constraint)
+                let acc = self.gate_add(constraint);
+                if i == 253 {
+                    low_254 = Some(acc);
+                }
+                acc
             });
 
         self.assert_equal(acc, scalar);
+
+        // A canonical scalar is below `r < 2^255`, but 255 or 256 boolean
+        // bits can also spell `scalar + r`, which recomposes to the same
+        // field element. Pin the decomposition to the canonical one: bit 255
+        // is zero and the split (bit 254, low 254 bits) does not exceed the
+        // same split of `r - 1`.
+        if let (true, Some(low)) = (N >= 255, low_254) {
+            if N == 256 {
+                self.assert_equal_constant(
+                    decomposition[255],
+                    BlsScalar::zero(),
+                    None,
+                );
+            }
+            self.assert_canonical_truncation(decomposition[254], low, 254);
+        }
 
         decomposition
     }
